@@ -34,7 +34,17 @@ fn main() {
     }));
     watchdog::start();
     // debug-build frames of the generated dispatch functions are large: run on a big stack
-    let h = std::thread::Builder::new().stack_size(2usize << 30).spawn(move || dispatch(args)).expect("HARNESS: spawn");
+    // (address space only: pages are committed as they are touched; fall back if the reservation is refused)
+    let stack_mb: usize = std::env::var("GAH_STACK_MB").ok().and_then(|s| s.parse().ok()).unwrap_or(4096);
+    let mut h = None;
+    for mb in [stack_mb, 2048, 1024] {
+        let a = args.clone();
+        if let Ok(t) = std::thread::Builder::new().stack_size(mb << 20).spawn(move || dispatch(a)) {
+            h = Some(t);
+            break;
+        }
+    }
+    let h = h.expect("HARNESS: spawn");
     if h.join().is_err() {
         std::process::exit(101);
     }
